@@ -41,8 +41,8 @@ archive = archive
 transfers = transfers
 
 [inputs]
-files = inputs/named_files
-csvpaths = inputs/named_paths
+files = {files_dir}
+csvpaths = {paths_dir}
 on_unmatched_file_fingerprints = halt
 """
 
@@ -54,7 +54,7 @@ def require_guard():
         raise RuntimeError(f"vfy hooks refuse to run without {GUARD}=1")
 
 
-def write_config(root=".", csvpath_policy=None, csvpaths_policy=None, imports=""):
+def write_config(root=".", csvpath_policy=None, csvpaths_policy=None, imports="", files_dir="inputs/named_files", paths_dir="inputs/named_paths"):
     """(re)write config/config.ini under root. Policies need >= 2 entries to be
     expressible in an ini file (Config._get only splits on a comma)."""
     cp = csvpath_policy or DEFAULT_POLICY
@@ -63,7 +63,7 @@ def write_config(root=".", csvpath_policy=None, csvpaths_policy=None, imports=""
         raise ValueError("ini-expressible policies need at least two flags")
     os.makedirs(os.path.join(root, "config"), exist_ok=True)
     with open(os.path.join(root, "config", "config.ini"), "w") as f:
-        f.write(CONFIG_TMPL.format(csvpath_policy=", ".join(cp), csvpaths_policy=", ".join(cps), imports=imports))
+        f.write(CONFIG_TMPL.format(csvpath_policy=", ".join(cp), csvpaths_policy=", ".join(cps), imports=imports, files_dir=files_dir, paths_dir=paths_dir))
 
 
 def setup_scratch(root):
